@@ -332,6 +332,10 @@ pub fn check_c10(history: &History, snapshot: &Snapshot<u64>) -> Check {
     let start = std::time::UNIX_EPOCH + Duration::from_nanos(history.rotation_start_ns);
     for entry in &snapshot.store {
         if let Some(expiry) = entry.expire_after {
+            // if the expiry index does not hold this entry under its deadline the sweeper could not have found it: that is
+            // an index inconsistency, judged (and classified) by check_index
+            let indexed = snapshot.ttl.iter().any(|indexed| indexed.id == entry.id && indexed.expire_after == expiry);
+            if !indexed { continue; }
             ensure!(expiry >= start, "C10", "C10/conc/not-swept-after-rotation", "key {} (id {}) expired at {:?}, before the final rotation started at {:?}, and is still held after one complete sweep of every shard", entry.key, entry.id, expiry, start);
         }
     }
